@@ -21,6 +21,11 @@ TNoAlloc == /\ Ev.e = "NoAlloc"
             /\ IF Ev.level > Ev.filter THEN Ev.len = 0
                ELSE FixedBufferLine(Ev, 8192, Ev.level, Ev.plen, Ev.sl)
             /\ UNCHANGED lvars
+(* two no-alloc loggers in a row on the default destination (the process's stderr): one line from each when the level is  *)
+(* let through, none otherwise - and the destination is the process's own: still open for everybody else afterwards      *)
+TNoAllocDefault == /\ Ev.e = "NoAllocDefault"
+                   /\ Ev.lines = (IF Ev.level > Ev.filter THEN 0 ELSE 2) /\ Ev.alive = 1
+                   /\ UNCHANGED lvars
 (* level names: case-insensitive, the six levels and NONE; the name read back is the canonical upper-case one *)
 LevelNames == <<"NONE", "FATAL", "ERROR", "WARN", "INFO", "DEBUG", "TRACE">>
 TLevelStr == /\ Ev.e = "LevelStr"
@@ -34,6 +39,6 @@ TEnd == Ev.e = "End" /\ Ev.live = 0 /\ Ev.unjoined = 0 /\ (\A k \in Producers : 
 
 TNext == l <= TraceLen /\ l' = l + 1 /\
          (TReset \/ TSetup \/ TLogBegin \/ TLogEnd \/ TWrite \/ TSetLevel \/ TCleanUpBegin \/ TCleanUpRet \/ TFmt
-            \/ TNoAlloc \/ TLevelStr \/ TNoLogger \/ TEnd)
+            \/ TNoAlloc \/ TNoAllocDefault \/ TLevelStr \/ TNoLogger \/ TEnd)
 TSpec == (l = 1 /\ LInit) /\ [][TNext]_<<lvars, l>>
 =============================================================================
